@@ -296,12 +296,20 @@ orc_line_advance (OrcLine *line)
 static void
 orc_line_add_token (OrcLine *line)
 {
+  char *end;
+
   line->tokens[line->n_tokens] = line->p;
   orc_line_advance (line);
   line->n_tokens++;
 
-  line->p[0] = 0;
-  line->p++;
+  /* blanks between a token and the separator that follows it belong to
+   * neither: "d1 , s1" is "d1, s1" */
+  end = line->p;
+  orc_line_skip_blanks (line);
+  if (orc_line_is_separator (line) || line->p == end) {
+    line->p++;
+  }
+  end[0] = 0;
 }
 
 static int
